@@ -81,6 +81,9 @@ whatever the lengths of the detail and payload-field slices. -/
 /-- every registered decoder passes the checker (re-decided against the current source) -/
 theorem C05_decoder_facts : DecProg.decoders.all (fun d => DecProg.safe [] d.ops) = true := by decide
 
+/-- … and so does every additional path of a decoder written as `if x, ok := payload.(*T); ok { … }` -/
+theorem C05_decoder_paths : DecProg.decoderPaths.all (fun d => DecProg.safe [] d.ops) = true := by decide
+
 /-- hence no registered decoder panics on any payload / detail fault -/
 theorem C05_registered_decoders_never_panic (d : DecProg.Decoder) (hd : d ∈ DecProg.decoders) (env : DecProg.Env) :
     DecProg.run env d.ops ≠ .panic := by
